@@ -48,7 +48,7 @@ Proof. reflexivity. Qed.
 
 (* the helpers, unfolded: byte-level read, then the real parser with the CONFIGURED endianness / text format;
    real serializer (parameters stored in the value), then byte-level write *)
-Theorem typed_helpers_unfold mc md S p loc :
+Theorem typed_helpers_unfold kf mc md S p loc :
   read_archive md S p loc = fbind (read_file md S p loc) (fun b => lift_parse (BinFormat.from_bytes (c_endian (conf S)) b)) /\
   read_text_archive md S p loc = fbind (read_file md S p loc) (fun b => lift_parse (parse_text (LayeredFS.c_text (conf S)) (c_endian (conf S)) b)) /\
   read_arc md S p loc = fbind (read_file md S p loc) (fun b => lift_parse (Arc.arc_from_bytes md b)) /\
@@ -57,17 +57,17 @@ Theorem typed_helpers_unfold mc md S p loc :
   read_bch_textures md S p loc = fbind (read_file md S p loc) (fun b => lift_parse (as_map (Bch.read_bch md b))) /\
   read_ctpk_textures md S p loc = fbind (read_file md S p loc) (fun b => lift_parse (as_map (Ctpk.read_ctpk md b))) /\
   read_cgfx_textures md S p loc = fbind (read_file md S p loc) (fun b => lift_parse (as_map (Cgfx.read_cgfx md b))) /\
-  (forall a, write_archive mc S p a loc =
-     match BinFormat.serialize mc a with
+  (forall a, write_archive kf mc S p a loc =
+     match BinFormat.serialize_k kf mc a with
      | Ok f => write_file mc S p f loc | Err x => (S, FErr (EParse x)) | Panic k => (S, FPanic k) end) /\
-  (forall a, write_text_archive mc S p a loc =
-     match TextFormat.serialize mc (ta_fmt a) (ta_endian a) (ta_map a) with
+  (forall a, write_text_archive kf mc S p a loc =
+     match TextFormat.serialize kf mc (ta_fmt a) (ta_endian a) (ta_map a) with
      | Ok f => write_file mc S p f loc | Err x => (S, FErr (EParse x)) | Panic k => (S, FPanic k) end).
 Proof.
   repeat split.
-  - intros a. unfold write_archive, fs_write_archive, ser_bin, write_file. destruct (BinFormat.serialize mc a); reflexivity.
+  - intros a. unfold write_archive, fs_write_archive, ser_bin, write_file. destruct (BinFormat.serialize_k kf mc a); reflexivity.
   - intros a. unfold write_text_archive, fs_write_text_archive, ser_text, write_file.
-    destruct (TextFormat.serialize mc (ta_fmt a) (ta_endian a) (ta_map a)); reflexivity.
+    destruct (TextFormat.serialize kf mc (ta_fmt a) (ta_endian a) (ta_map a)); reflexivity.
 Qed.
 
 (* what LayeredFilesystem::new configures *)
@@ -105,7 +105,7 @@ Theorem typed_reads_after_write mc md S p b loc S' :
   read_cgfx_textures md S' p loc = lift_parse (as_map (Cgfx.read_cgfx md b)).
 Proof.
   intros H Hw Hn. destruct (read_after_write_file mc md S p b loc S' H Hw Hn) as [R C].
-  destruct (typed_helpers_unfold mc md S' p loc) as (U1 & U2 & U3 & U4 & U5 & U6 & U7 & U8 & _).
+  destruct (typed_helpers_unfold key_bytes mc md S' p loc) as (U1 & U2 & U3 & U4 & U5 & U6 & U7 & U8 & _).
   rewrite U1, U2, U3, U4, U5, U6, U7, U8, R, C. cbn [fbind]. repeat split.
 Qed.
 
@@ -146,42 +146,42 @@ Definition same_archive (a a' : archive) : Prop :=
   (forall s cs cell, In (s, cs) (a_cstrs a) -> In cell cs -> read_c_string a' cell = Ok (Some s)).
 
 (* the image of an archive of C01's domain is no longer than C01's size bound *)
-Lemma serialize_size m a f : wf_archive a -> fits32 a -> BinFormat.serialize m a = Ok f -> lenN f <= ser_bound a.
+Lemma serialize_size kf m a f : wf_archive a -> fits32 a -> BinFormat.serialize_k kf m a = Ok f -> lenN f <= ser_bound a.
 Proof.
   intros WF FIT Ef.
-  destruct (ser_facts a WF) as (d2 & tpool2 & groups & ltab & Es & L2 & W2 & Hptr & Hstr & Hnth & Hok2 & Wp & Hlen & Erl & HF & Hperm).
+  destruct (ser_facts kf a WF) as (d2 & tpool2 & groups & ltab & Es & L2 & W2 & Hptr & Hstr & Hnth & Hok2 & Wp & Hlen & Erl & HF & Hperm).
   assert (E : f = image_of a d2 tpool2 groups ltab).
-  { rewrite serialize_unfold, Es in Ef. cbn [bind] in Ef. rewrite (assemble_ok a WF FIT d2 tpool2 groups ltab) in Ef by assumption.
+  { rewrite serialize_unfold, Es in Ef. cbn [bind] in Ef. rewrite (assemble_ok kf a WF FIT d2 tpool2 groups ltab) in Ef by assumption.
     inversion Ef. reflexivity. }
-  rewrite E, (lenN_image a d2 tpool2 groups ltab L2 Hlen Hptr Hstr).
-  exact (fsz_bound a WF FIT d2 tpool2 groups ltab L2 Hok2 Hlen HF Hperm Hptr Hstr).
+  rewrite E, (lenN_image kf a d2 tpool2 groups ltab L2 Hlen Hptr Hstr).
+  exact (fsz_bound kf a WF FIT d2 tpool2 groups ltab L2 Hok2 Hlen HF Hperm Hptr Hstr).
 Qed.
 
 Lemma small_fits32 a : ser_bound a < 2 ^ 24 -> fits32 a.
 Proof. unfold fits32, U32. change (2 ^ 24) with 16777216. lia. Qed.
 
 (* the image written by serialize and everything C01 says about reading it back *)
-Lemma archive_image mc a : wf_archive a -> ser_bound a < 2 ^ 24 ->
-  exists f a', BinFormat.serialize mc a = Ok f /\ wfb f /\ lenN f < 2 ^ 24 /\
+Lemma archive_image kf mc a : wf_archive a -> ser_bound a < 2 ^ 24 ->
+  exists f a', BinFormat.serialize_k kf mc a = Ok f /\ wfb f /\ lenN f < 2 ^ 24 /\
     BinFormat.from_bytes (a_endian a) f = Ok a' /\ same_archive a a'.
 Proof.
   intros WF B. pose proof (small_fits32 a B) as FIT.
-  destruct (round_trip mc a WF FIT) as (f & a' & Hs & Hw & Hp & R).
+  destruct (round_trip kf mc a WF FIT) as (f & a' & Hs & Hw & Hp & R).
   exists f, a'. split; [exact Hs|]. split; [exact Hw|]. split.
-  - pose proof (serialize_size mc a f WF FIT Hs). lia.
+  - pose proof (serialize_size kf mc a f WF FIT Hs). lia.
   - split; [exact Hp | exact R].
 Qed.
 
-Theorem e2e_archive_round_trip mc md S p loc a S' :
+Theorem e2e_archive_round_trip kf mc md S p loc a S' :
   wf_archive a -> ser_bound a < 2 ^ 24 -> a_endian a = c_endian (conf S) ->
-  write_archive mc S p a loc = (S', FOk tt) ->
+  write_archive kf mc S p a loc = (S', FOk tt) ->
   exists f a',
-    BinFormat.serialize mc a = Ok f /\ write_file mc S p f loc = (S', FOk tt) /\
+    BinFormat.serialize_k kf mc a = Ok f /\ write_file mc S p f loc = (S', FOk tt) /\
     read_file md S' p loc = FOk f /\
     read_archive md S' p loc = FOk a' /\ same_archive a a'.
 Proof.
-  intros WF B He H. destruct (archive_image mc a WF B) as (f & a' & Hs & Hw & Hn & Hp & R).
-  destruct (typed_helpers_unfold mc md S p loc) as (_ & _ & _ & _ & _ & _ & _ & _ & UW & _).
+  intros WF B He H. destruct (archive_image kf mc a WF B) as (f & a' & Hs & Hw & Hn & Hp & R).
+  destruct (typed_helpers_unfold kf mc md S p loc) as (_ & _ & _ & _ & _ & _ & _ & _ & UW & _).
   rewrite UW, Hs in H.
   destruct (typed_reads_after_write mc md S p f loc S' H Hw Hn) as (Rb & Ra & _).
   exists f, a'. split; [exact Hs|]. split; [exact H|]. split; [exact Rb|]. split; [|exact R].
@@ -197,12 +197,12 @@ Proof.
   destruct g; cbn in Hg |- *; try exact Hg; contradiction.
 Qed.
 
-Theorem e2e_archive_round_trip_by_game mc md ls l g S p loc a S' :
+Theorem e2e_archive_round_trip_by_game kf mc md ls l g S p loc a S' :
   fs_new ls l g = FOk S ->
   wf_archive a -> ser_bound a < 2 ^ 24 -> game_endian_is g (a_endian a) ->
-  write_archive mc S p a loc = (S', FOk tt) ->
+  write_archive kf mc S p a loc = (S', FOk tt) ->
   exists f a',
-    BinFormat.serialize mc a = Ok f /\ write_file mc S p f loc = (S', FOk tt) /\
+    BinFormat.serialize_k kf mc a = Ok f /\ write_file mc S p f loc = (S', FOk tt) /\
     read_file md S' p loc = FOk f /\
     read_archive md S' p loc = FOk a' /\ same_archive a a'.
 Proof.
@@ -227,37 +227,37 @@ Qed.
 Import TextFormatRoundTrip.
 
 (* the image written by TextArchive::serialize and what C06 says about reading it back *)
-Lemma text_image_bytes mc fmt e t : wf_text fmt t -> wf_text_bytes fmt e t -> file_bound (TextFormatWrite.text_image fmt e t) < 2 ^ 24 ->
-  exists f, TextFormat.serialize mc fmt e t = Ok f /\ wfb f /\ lenN f < 2 ^ 24 /\
+Lemma text_image_bytes kf mc fmt e t : wf_text fmt t -> wf_text_bytes fmt e t -> file_bound (TextFormatWrite.text_image fmt e t) < 2 ^ 24 ->
+  exists f, TextFormat.serialize kf mc fmt e t = Ok f /\ wfb f /\ lenN f < 2 ^ 24 /\
             TextFormat.from_bytes fmt e f = Ok (parsed fmt t).
 Proof.
   intros Hw Hb Hs.
-  destruct (text_round_trip_bytes mc (TextBinBridge.bin_round_trip_plain mc) fmt e t Hw Hb) as (f & Hser & Hp).
+  destruct (text_round_trip_bytes kf mc (TextBinBridge.bin_round_trip_plain kf mc) fmt e t Hw Hb) as (f & Hser & Hp).
   exists f. split; [exact Hser|].
   destruct (TextBinBridge.text_image_in_C01_domain fmt e t Hb) as [WF FIT].
   unfold TextFormat.serialize in Hser. rewrite TextFormatWrite.build_archive_spec in Hser. cbn [bind] in Hser.
-  destruct (serialize_conforms mc _ WF FIT) as (f' & Hs' & Hwf & _). rewrite Hser in Hs'. injection Hs' as <-.
+  destruct (serialize_conforms kf mc _ WF FIT) as (f' & Hs' & Hwf & _). rewrite Hser in Hs'. injection Hs' as <-.
   split; [exact Hwf|]. split; [|exact Hp].
-  pose proof (serialize_size mc _ f WF FIT Hser) as Hle.
+  pose proof (serialize_size kf mc _ f WF FIT Hser) as Hle.
   destruct (text_image_plain fmt e t Hb) as (Et & Ep & Ec & _).
   rewrite (TextBinBridge.plain_ser_bound _ Et Ep Ec) in Hle. lia.
 Qed.
 
-Theorem e2e_text_round_trip mc md S p loc ta S' :
+Theorem e2e_text_round_trip kf mc md S p loc ta S' :
   wf_text (ta_fmt ta) (ta_map ta) -> wf_text_bytes (ta_fmt ta) (ta_endian ta) (ta_map ta) ->
   file_bound (TextFormatWrite.text_image (ta_fmt ta) (ta_endian ta) (ta_map ta)) < 2 ^ 24 ->
   ta_fmt ta = tformat_of (LayeredFS.c_text (conf S)) -> ta_endian ta = c_endian (conf S) ->
-  write_text_archive mc S p ta loc = (S', FOk tt) ->
+  write_text_archive kf mc S p ta loc = (S', FOk tt) ->
   exists f,
-    TextFormat.serialize mc (ta_fmt ta) (ta_endian ta) (ta_map ta) = Ok f /\ write_file mc S p f loc = (S', FOk tt) /\
+    TextFormat.serialize kf mc (ta_fmt ta) (ta_endian ta) (ta_map ta) = Ok f /\ write_file mc S p f loc = (S', FOk tt) /\
     read_file md S' p loc = FOk f /\
     read_text_archive md S' p loc =
       FOk (mkTA (ta_fmt ta) (ta_endian ta)
              {| t_title := match ta_fmt ta with TextFormat.Unicode => t_title (ta_map ta) | TextFormat.ShiftJIS => [] end;
                 t_entries := t_entries (ta_map ta); t_dirty := false |}).
 Proof.
-  intros Hw Hb Hs Hf He H. destruct (text_image_bytes mc _ _ _ Hw Hb Hs) as (f & Hser & Hwf & Hn & Hp).
-  destruct (typed_helpers_unfold mc md S p loc) as (_ & _ & _ & _ & _ & _ & _ & _ & _ & UW).
+  intros Hw Hb Hs Hf He H. destruct (text_image_bytes kf mc _ _ _ Hw Hb Hs) as (f & Hser & Hwf & Hn & Hp).
+  destruct (typed_helpers_unfold kf mc md S p loc) as (_ & _ & _ & _ & _ & _ & _ & _ & _ & UW).
   rewrite UW, Hser in H.
   destruct (typed_reads_after_write mc md S p f loc S' H Hwf Hn) as (Rb & _ & Rt & _).
   exists f. split; [exact Hser|]. split; [exact H|]. split; [exact Rb|].
@@ -277,14 +277,14 @@ Proof.
   destruct g; cbn in Hg |- *; try exact Hg; contradiction.
 Qed.
 
-Theorem e2e_text_round_trip_by_game mc md ls l g S p loc ta S' :
+Theorem e2e_text_round_trip_by_game kf mc md ls l g S p loc ta S' :
   fs_new ls l g = FOk S ->
   wf_text (ta_fmt ta) (ta_map ta) -> wf_text_bytes (ta_fmt ta) (ta_endian ta) (ta_map ta) ->
   file_bound (TextFormatWrite.text_image (ta_fmt ta) (ta_endian ta) (ta_map ta)) < 2 ^ 24 ->
   game_text_is g (ta_fmt ta) (ta_endian ta) ->
-  write_text_archive mc S p ta loc = (S', FOk tt) ->
+  write_text_archive kf mc S p ta loc = (S', FOk tt) ->
   exists f,
-    TextFormat.serialize mc (ta_fmt ta) (ta_endian ta) (ta_map ta) = Ok f /\ write_file mc S p f loc = (S', FOk tt) /\
+    TextFormat.serialize kf mc (ta_fmt ta) (ta_endian ta) (ta_map ta) = Ok f /\ write_file mc S p f loc = (S', FOk tt) /\
     read_file md S' p loc = FOk f /\
     read_text_archive md S' p loc =
       FOk (mkTA (ta_fmt ta) (ta_endian ta)
@@ -422,33 +422,33 @@ Proof.
 Qed.
 
 (* ------------------------------------------------------------------ (d) the typed writers touch the top layer only *)
-Theorem write_archive_lower_untouched mc S p a loc S' r :
-  write_archive mc S p a loc = (S', r) ->
+Theorem write_archive_lower_untouched kf mc S p a loc S' r :
+  write_archive kf mc S p a loc = (S', r) ->
   conf S' = conf S /\ lng S' = lng S /\ length (layers S') = length (layers S) /\ removelast (layers S') = removelast (layers S).
 Proof.
-  destruct (typed_helpers_unfold mc Checked S p loc) as (_ & _ & _ & _ & _ & _ & _ & _ & UW & _). rewrite UW.
-  destruct (BinFormat.serialize mc a) as [f|e|k]; intros H.
+  destruct (typed_helpers_unfold kf mc Checked S p loc) as (_ & _ & _ & _ & _ & _ & _ & _ & UW & _). rewrite UW.
+  destruct (BinFormat.serialize_k kf mc a) as [f|e|k]; intros H.
   - exact (write_lower_untouched (lz_compress mc) S p f loc S' r H).
   - injection H as <- _. repeat split.
   - injection H as <- _. repeat split.
 Qed.
-Theorem write_text_archive_lower_untouched mc S p a loc S' r :
-  write_text_archive mc S p a loc = (S', r) ->
+Theorem write_text_archive_lower_untouched kf mc S p a loc S' r :
+  write_text_archive kf mc S p a loc = (S', r) ->
   conf S' = conf S /\ lng S' = lng S /\ length (layers S') = length (layers S) /\ removelast (layers S') = removelast (layers S).
 Proof.
-  destruct (typed_helpers_unfold mc Checked S p loc) as (_ & _ & _ & _ & _ & _ & _ & _ & _ & UW). rewrite UW.
-  destruct (TextFormat.serialize mc (ta_fmt a) (ta_endian a) (ta_map a)) as [f|e|k]; intros H.
+  destruct (typed_helpers_unfold kf mc Checked S p loc) as (_ & _ & _ & _ & _ & _ & _ & _ & _ & UW). rewrite UW.
+  destruct (TextFormat.serialize kf mc (ta_fmt a) (ta_endian a) (ta_map a)) as [f|e|k]; intros H.
   - exact (write_lower_untouched (lz_compress mc) S p f loc S' r H).
   - injection H as <- _. repeat split.
   - injection H as <- _. repeat split.
 Qed.
 
 (* a typed writer whose serializer fails changes nothing at all *)
-Theorem write_archive_serialize_fails mc S p a loc S' r :
-  write_archive mc S p a loc = (S', r) -> (forall f, BinFormat.serialize mc a <> Ok f) -> S' = S /\ r <> FOk tt.
+Theorem write_archive_serialize_fails kf mc S p a loc S' r :
+  write_archive kf mc S p a loc = (S', r) -> (forall f, BinFormat.serialize_k kf mc a <> Ok f) -> S' = S /\ r <> FOk tt.
 Proof.
-  destruct (typed_helpers_unfold mc Checked S p loc) as (_ & _ & _ & _ & _ & _ & _ & _ & UW & _). rewrite UW.
-  destruct (BinFormat.serialize mc a) as [f|e|k]; intros H Hf; [exfalso; exact (Hf f eq_refl)| |];
+  destruct (typed_helpers_unfold kf mc Checked S p loc) as (_ & _ & _ & _ & _ & _ & _ & _ & UW & _). rewrite UW.
+  destruct (BinFormat.serialize_k kf mc a) as [f|e|k]; intros H Hf; [exfalso; exact (Hf f eq_refl)| |];
     injection H as <- <-; split; [reflexivity | discriminate | reflexivity | discriminate].
 Qed.
 
@@ -475,46 +475,46 @@ Proof.
   - injection En as ->. reflexivity.
 Qed.
 
-Theorem write_archive_top_only mc S p a loc S' :
+Theorem write_archive_top_only kf mc S p a loc S' :
   wf_archive a -> ser_bound a < 2 ^ 24 ->
-  write_archive mc S p a loc = (S', FOk tt) ->
-  exists f s pp c, BinFormat.serialize mc a = Ok f /\ fs_addr S p loc = FOk (s, (pp, false)) /\ top_layer_effect S S' pp c /\
+  write_archive kf mc S p a loc = (S', FOk tt) ->
+  exists f s pp c, BinFormat.serialize_k kf mc a = Ok f /\ fs_addr S p loc = FOk (s, (pp, false)) /\ top_layer_effect S S' pp c /\
     if is_compressed (c_comp (conf S)) p then valid_stream (c_comp (conf S)) f c else c = f.
 Proof.
-  intros WF B H. destruct (archive_image mc a WF B) as (f & a' & Hs & Hw & Hn & _).
-  destruct (typed_helpers_unfold mc Checked S p loc) as (_ & _ & _ & _ & _ & _ & _ & _ & UW & _). rewrite UW, Hs in H.
+  intros WF B H. destruct (archive_image kf mc a WF B) as (f & a' & Hs & Hw & Hn & _).
+  destruct (typed_helpers_unfold kf mc Checked S p loc) as (_ & _ & _ & _ & _ & _ & _ & _ & UW & _). rewrite UW, Hs in H.
   destruct (write_bytes_top_only mc S p f loc S' H Hw Hn) as (s & pp & c & A & T & V). exists f, s, pp, c. auto.
 Qed.
-Theorem write_text_archive_top_only mc S p ta loc S' :
+Theorem write_text_archive_top_only kf mc S p ta loc S' :
   wf_text (ta_fmt ta) (ta_map ta) -> wf_text_bytes (ta_fmt ta) (ta_endian ta) (ta_map ta) ->
   file_bound (TextFormatWrite.text_image (ta_fmt ta) (ta_endian ta) (ta_map ta)) < 2 ^ 24 ->
-  write_text_archive mc S p ta loc = (S', FOk tt) ->
-  exists f s pp c, TextFormat.serialize mc (ta_fmt ta) (ta_endian ta) (ta_map ta) = Ok f /\
+  write_text_archive kf mc S p ta loc = (S', FOk tt) ->
+  exists f s pp c, TextFormat.serialize kf mc (ta_fmt ta) (ta_endian ta) (ta_map ta) = Ok f /\
     fs_addr S p loc = FOk (s, (pp, false)) /\ top_layer_effect S S' pp c /\
     if is_compressed (c_comp (conf S)) p then valid_stream (c_comp (conf S)) f c else c = f.
 Proof.
-  intros Hw Hb Hs H. destruct (text_image_bytes mc _ _ _ Hw Hb Hs) as (f & Hser & Hwf & Hn & _).
-  destruct (typed_helpers_unfold mc Checked S p loc) as (_ & _ & _ & _ & _ & _ & _ & _ & _ & UW). rewrite UW, Hser in H.
+  intros Hw Hb Hs H. destruct (text_image_bytes kf mc _ _ _ Hw Hb Hs) as (f & Hser & Hwf & Hn & _).
+  destruct (typed_helpers_unfold kf mc Checked S p loc) as (_ & _ & _ & _ & _ & _ & _ & _ & _ & UW). rewrite UW, Hser in H.
   destruct (write_bytes_top_only mc S p f loc S' H Hwf Hn) as (s & pp & c & A & T & V). exists f, s, pp, c. auto.
 Qed.
 
 (* in the domain the serializers never fail, so a typed write fails exactly when the byte-level write of the image fails:
    the failure theorems of the byte level (C12_write_fail, C12_write_fail_unchanged) apply verbatim *)
-Theorem write_archive_is_write mc S p a loc : wf_archive a -> ser_bound a < 2 ^ 24 ->
-  exists f, BinFormat.serialize mc a = Ok f /\ wfb f /\ lenN f < 2 ^ 24 /\ write_archive mc S p a loc = write_file mc S p f loc.
+Theorem write_archive_is_write kf mc S p a loc : wf_archive a -> ser_bound a < 2 ^ 24 ->
+  exists f, BinFormat.serialize_k kf mc a = Ok f /\ wfb f /\ lenN f < 2 ^ 24 /\ write_archive kf mc S p a loc = write_file mc S p f loc.
 Proof.
-  intros WF B. destruct (archive_image mc a WF B) as (f & a' & Hs & Hw & Hn & _).
-  destruct (typed_helpers_unfold mc Checked S p loc) as (_ & _ & _ & _ & _ & _ & _ & _ & UW & _).
+  intros WF B. destruct (archive_image kf mc a WF B) as (f & a' & Hs & Hw & Hn & _).
+  destruct (typed_helpers_unfold kf mc Checked S p loc) as (_ & _ & _ & _ & _ & _ & _ & _ & UW & _).
   exists f. rewrite UW, Hs. auto.
 Qed.
-Theorem write_text_archive_is_write mc S p ta loc :
+Theorem write_text_archive_is_write kf mc S p ta loc :
   wf_text (ta_fmt ta) (ta_map ta) -> wf_text_bytes (ta_fmt ta) (ta_endian ta) (ta_map ta) ->
   file_bound (TextFormatWrite.text_image (ta_fmt ta) (ta_endian ta) (ta_map ta)) < 2 ^ 24 ->
-  exists f, TextFormat.serialize mc (ta_fmt ta) (ta_endian ta) (ta_map ta) = Ok f /\ wfb f /\ lenN f < 2 ^ 24 /\
-    write_text_archive mc S p ta loc = write_file mc S p f loc.
+  exists f, TextFormat.serialize kf mc (ta_fmt ta) (ta_endian ta) (ta_map ta) = Ok f /\ wfb f /\ lenN f < 2 ^ 24 /\
+    write_text_archive kf mc S p ta loc = write_file mc S p f loc.
 Proof.
-  intros Hw Hb Hs. destruct (text_image_bytes mc _ _ _ Hw Hb Hs) as (f & Hser & Hwf & Hn & _).
-  destruct (typed_helpers_unfold mc Checked S p loc) as (_ & _ & _ & _ & _ & _ & _ & _ & _ & UW).
+  intros Hw Hb Hs. destruct (text_image_bytes kf mc _ _ _ Hw Hb Hs) as (f & Hser & Hwf & Hn & _).
+  destruct (typed_helpers_unfold kf mc Checked S p loc) as (_ & _ & _ & _ & _ & _ & _ & _ & _ & UW).
   exists f. rewrite UW, Hser. auto.
 Qed.
 
@@ -522,12 +522,12 @@ Qed.
 (* the complete chain for a bin archive: archive value -> image f (C01) -> stored file c (the game's codec by the caller's name:
    LZ10 for ".cms" / ".cmp" under FE9 / FE10, 0x13-wrapped LZ11 for ".lz" under FE13 - FE15, f itself otherwise) in the top layer at the
    addressed location -> decompressed by the game's decompressor back to f -> parsed with the game's endianness to a' ~ a *)
-Theorem e2e_archive_by_game_chain mc md ls l g S p loc a S' :
+Theorem e2e_archive_by_game_chain kf mc md ls l g S p loc a S' :
   fs_new ls l g = FOk S ->
   wf_archive a -> ser_bound a < 2 ^ 24 -> game_endian_is g (a_endian a) ->
-  write_archive mc S p a loc = (S', FOk tt) ->
+  write_archive kf mc S p a loc = (S', FOk tt) ->
   exists f a' s pp c,
-    BinFormat.serialize mc a = Ok f /\
+    BinFormat.serialize_k kf mc a = Ok f /\
     fs_addr S p loc = FOk (s, (pp, false)) /\ l_get (last (layers S') []) pp = Some (File c) /\
     match g with
     | FE9 | FE10 => if orb (ends_with sfx_cms p) (ends_with sfx_cmp p)
@@ -537,11 +537,11 @@ Theorem e2e_archive_by_game_chain mc md ls l g S p loc a S' :
     BinFormat.from_bytes (match g with FE9 | FE10 => BE | _ => LE end) f = Ok a' /\
     read_archive md S' p loc = FOk a' /\ same_archive a a'.
 Proof.
-  intros Hn WF B Hg H. destruct (archive_image mc a WF B) as (f & a' & Hs & Hw & Hl & Hp & R).
-  destruct (typed_helpers_unfold mc md S p loc) as (_ & _ & _ & _ & _ & _ & _ & _ & UW & _).
+  intros Hn WF B Hg H. destruct (archive_image kf mc a WF B) as (f & a' & Hs & Hw & Hl & Hp & R).
+  destruct (typed_helpers_unfold kf mc md S p loc) as (_ & _ & _ & _ & _ & _ & _ & _ & UW & _).
   pose proof H as H'. rewrite UW, Hs in H'.
   destruct (real_read_after_write_by_game mc md ls l g S p f loc S' Hn H' Hw Hl) as (_ & s & pp & c & A & G & V).
-  destruct (e2e_archive_round_trip_by_game mc md ls l g S p loc a S' Hn WF B Hg H) as (f2 & a2 & Hs2 & _ & _ & Ra & R2).
+  destruct (e2e_archive_round_trip_by_game kf mc md ls l g S p loc a S' Hn WF B Hg H) as (f2 & a2 & Hs2 & _ & _ & Ra & R2).
   rewrite Hs in Hs2. injection Hs2 as <-.
   exists f, a2, s, pp, c. split; [exact Hs|]. split; [exact A|]. split; [exact G|]. split; [exact V|].
   split; [|split; [exact Ra | exact R2]].
@@ -553,14 +553,14 @@ Proof.
 Qed.
 
 (* the same chain for a text archive: Shift-JIS / big-endian / LZ10 for FE9 and FE10, UTF-16 / little-endian / LZ13 for FE13 - FE15 *)
-Theorem e2e_text_by_game_chain mc md ls l g S p loc ta S' :
+Theorem e2e_text_by_game_chain kf mc md ls l g S p loc ta S' :
   fs_new ls l g = FOk S ->
   wf_text (ta_fmt ta) (ta_map ta) -> wf_text_bytes (ta_fmt ta) (ta_endian ta) (ta_map ta) ->
   file_bound (TextFormatWrite.text_image (ta_fmt ta) (ta_endian ta) (ta_map ta)) < 2 ^ 24 ->
   game_text_is g (ta_fmt ta) (ta_endian ta) ->
-  write_text_archive mc S p ta loc = (S', FOk tt) ->
+  write_text_archive kf mc S p ta loc = (S', FOk tt) ->
   exists f s pp c,
-    TextFormat.serialize mc (ta_fmt ta) (ta_endian ta) (ta_map ta) = Ok f /\
+    TextFormat.serialize kf mc (ta_fmt ta) (ta_endian ta) (ta_map ta) = Ok f /\
     fs_addr S p loc = FOk (s, (pp, false)) /\ l_get (last (layers S') []) pp = Some (File c) /\
     match g with
     | FE9 | FE10 => if orb (ends_with sfx_cms p) (ends_with sfx_cmp p)
@@ -571,11 +571,11 @@ Theorem e2e_text_by_game_chain mc md ls l g S p loc ta S' :
                           (match g with FE9 | FE10 => BE | _ => LE end) f = Ok (parsed (ta_fmt ta) (ta_map ta)) /\
     read_text_archive md S' p loc = FOk (mkTA (ta_fmt ta) (ta_endian ta) (parsed (ta_fmt ta) (ta_map ta))).
 Proof.
-  intros Hn Hw Hb Hs Hg H. destruct (text_image_bytes mc _ _ _ Hw Hb Hs) as (f & Hser & Hwf & Hl & Hp).
-  destruct (typed_helpers_unfold mc md S p loc) as (_ & _ & _ & _ & _ & _ & _ & _ & _ & UW).
+  intros Hn Hw Hb Hs Hg H. destruct (text_image_bytes kf mc _ _ _ Hw Hb Hs) as (f & Hser & Hwf & Hl & Hp).
+  destruct (typed_helpers_unfold kf mc md S p loc) as (_ & _ & _ & _ & _ & _ & _ & _ & _ & UW).
   pose proof H as H'. rewrite UW, Hser in H'.
   destruct (real_read_after_write_by_game mc md ls l g S p f loc S' Hn H' Hwf Hl) as (_ & s & pp & c & A & G & V).
-  destruct (e2e_text_round_trip_by_game mc md ls l g S p loc ta S' Hn Hw Hb Hs Hg H) as (f2 & Hs2 & _ & _ & Rt).
+  destruct (e2e_text_round_trip_by_game kf mc md ls l g S p loc ta S' Hn Hw Hb Hs Hg H) as (f2 & Hs2 & _ & _ & Rt).
   rewrite Hser in Hs2. injection Hs2 as <-.
   exists f, s, pp, c. split; [exact Hser|]. split; [exact A|]. split; [exact G|]. split; [exact V|]. split; [|exact Rt].
   assert (E : ta_fmt ta = match g with FE9 | FE10 => TextFormat.ShiftJIS | _ => TextFormat.Unicode end /\
@@ -585,38 +585,38 @@ Proof.
 Qed.
 
 (* ------------------------------------------------------------------ histories of typed calls *)
-Theorem typed_step_lower_untouched mc md S o :
-  let S' := fst (typed_step mc md S o) in
+Theorem typed_step_lower_untouched kf mc md S o :
+  let S' := fst (typed_step kf mc md S o) in
   conf S' = conf S /\ lng S' = lng S /\ length (layers S') = length (layers S) /\ removelast (layers S') = removelast (layers S).
 Proof.
   destruct o; cbn [typed_step fst]; try (repeat split; reflexivity).
   - destruct (write_file mc S p b loc) as [S' r] eqn:E. cbn [fst]. exact (write_lower_untouched (lz_compress mc) S p b loc S' r E).
-  - destruct (write_archive mc S p a loc) as [S' r] eqn:E. cbn [fst]. exact (write_archive_lower_untouched mc S p a loc S' r E).
-  - destruct (write_text_archive mc S p a loc) as [S' r] eqn:E. cbn [fst]. exact (write_text_archive_lower_untouched mc S p a loc S' r E).
+  - destruct (write_archive kf mc S p a loc) as [S' r] eqn:E. cbn [fst]. exact (write_archive_lower_untouched kf mc S p a loc S' r E).
+  - destruct (write_text_archive kf mc S p a loc) as [S' r] eqn:E. cbn [fst]. exact (write_text_archive_lower_untouched kf mc S p a loc S' r E).
 Qed.
 
-Theorem typed_run_lower_untouched mc md os : forall S,
-  let S' := typed_run mc md S os in
+Theorem typed_run_lower_untouched kf mc md os : forall S,
+  let S' := typed_run kf mc md S os in
   conf S' = conf S /\ lng S' = lng S /\ length (layers S') = length (layers S) /\ removelast (layers S') = removelast (layers S).
 Proof.
   induction os as [|o r IH]; intros S; cbn [typed_run]; [repeat split; reflexivity|].
-  destruct (IH (fst (typed_step mc md S o))) as (A1 & A2 & A3 & A4).
-  destruct (typed_step_lower_untouched mc md S o) as (B1 & B2 & B3 & B4).
+  destruct (IH (fst (typed_step kf mc md S o))) as (A1 & A2 & A3 & A4).
+  destruct (typed_step_lower_untouched kf mc md S o) as (B1 & B2 & B3 & B4).
   cbv zeta. rewrite A1, A2, A3, A4. auto.
 Qed.
 
-Theorem typed_step_wf mc md S o : wf_fs S -> wf_fs (fst (typed_step mc md S o)).
+Theorem typed_step_wf kf mc md S o : wf_fs S -> wf_fs (fst (typed_step kf mc md S o)).
 Proof.
   intros W. destruct o; cbn [typed_step fst]; try exact W.
   - destruct (write_file mc S p b loc) as [S' r] eqn:E. cbn [fst]. exact (fs_write_wf (lz_compress mc) S p b loc S' r W E).
-  - destruct (typed_helpers_unfold mc md S p loc) as (_ & _ & _ & _ & _ & _ & _ & _ & UW & _). rewrite UW.
-    destruct (BinFormat.serialize mc a) as [f|e|k]; cbn [fst]; try exact W.
+  - destruct (typed_helpers_unfold kf mc md S p loc) as (_ & _ & _ & _ & _ & _ & _ & _ & UW & _). rewrite UW.
+    destruct (BinFormat.serialize_k kf mc a) as [f|e|k]; cbn [fst]; try exact W.
     destruct (write_file mc S p f loc) as [S' r] eqn:E. cbn [fst]. exact (fs_write_wf (lz_compress mc) S p f loc S' r W E).
-  - destruct (typed_helpers_unfold mc md S p loc) as (_ & _ & _ & _ & _ & _ & _ & _ & _ & UW). rewrite UW.
-    destruct (TextFormat.serialize mc (ta_fmt a) (ta_endian a) (ta_map a)) as [f|e|k]; cbn [fst]; try exact W.
+  - destruct (typed_helpers_unfold kf mc md S p loc) as (_ & _ & _ & _ & _ & _ & _ & _ & _ & UW). rewrite UW.
+    destruct (TextFormat.serialize kf mc (ta_fmt a) (ta_endian a) (ta_map a)) as [f|e|k]; cbn [fst]; try exact W.
     destruct (write_file mc S p f loc) as [S' r] eqn:E. cbn [fst]. exact (fs_write_wf (lz_compress mc) S p f loc S' r W E).
 Qed.
-Theorem typed_run_wf mc md os : forall S, wf_fs S -> wf_fs (typed_run mc md S os).
+Theorem typed_run_wf kf mc md os : forall S, wf_fs S -> wf_fs (typed_run kf mc md S os).
 Proof. induction os as [|o r IH]; intros S W; cbn [typed_run]; [exact W|]. apply IH, typed_step_wf, W. Qed.
 
 (* ------------------------------------------------------------------ frame: a write addressed elsewhere does not disturb a read *)
@@ -684,41 +684,41 @@ Proof.
     intros H s qq tr A; rewrite (fs_addr_state S S' _ _ C G) in A; exact (H s qq tr A).
 Qed.
 
-Theorem typed_step_keeps_read mc md md' S o p loc s a :
+Theorem typed_step_keeps_read kf mc md md' S o p loc s a :
   fs_addr S p loc = FOk (s, a) -> writes_elsewhere S (fst a) o ->
-  read_file md' (fst (typed_step mc md S o)) p loc = read_file md' S p loc.
+  read_file md' (fst (typed_step kf mc md S o)) p loc = read_file md' S p loc.
 Proof.
   intros A E. destruct o; cbn [typed_step fst]; try reflexivity; cbn [writes_elsewhere] in E.
   - destruct (write_file mc S p0 b loc0) as [S' r] eqn:W. cbn [fst].
     exact (write_frame_read (lz_compress mc) (lz_decompress md') S p0 b loc0 S' r p loc s a W A E).
-  - destruct (typed_helpers_unfold mc md S p0 loc0) as (_ & _ & _ & _ & _ & _ & _ & _ & UW & _). rewrite UW.
-    destruct (BinFormat.serialize mc a0) as [f|e|k]; cbn [fst]; try reflexivity.
+  - destruct (typed_helpers_unfold kf mc md S p0 loc0) as (_ & _ & _ & _ & _ & _ & _ & _ & UW & _). rewrite UW.
+    destruct (BinFormat.serialize_k kf mc a0) as [f|e|k]; cbn [fst]; try reflexivity.
     destruct (write_file mc S p0 f loc0) as [S' r] eqn:W. cbn [fst].
     exact (write_frame_read (lz_compress mc) (lz_decompress md') S p0 f loc0 S' r p loc s a W A E).
-  - destruct (typed_helpers_unfold mc md S p0 loc0) as (_ & _ & _ & _ & _ & _ & _ & _ & _ & UW). rewrite UW.
-    destruct (TextFormat.serialize mc (ta_fmt a0) (ta_endian a0) (ta_map a0)) as [f|e|k]; cbn [fst]; try reflexivity.
+  - destruct (typed_helpers_unfold kf mc md S p0 loc0) as (_ & _ & _ & _ & _ & _ & _ & _ & _ & UW). rewrite UW.
+    destruct (TextFormat.serialize kf mc (ta_fmt a0) (ta_endian a0) (ta_map a0)) as [f|e|k]; cbn [fst]; try reflexivity.
     destruct (write_file mc S p0 f loc0) as [S' r] eqn:W. cbn [fst].
     exact (write_frame_read (lz_compress mc) (lz_decompress md') S p0 f loc0 S' r p loc s a W A E).
 Qed.
 
 (* along any history of typed and byte-level calls none of which writes to the location p addresses, what p reads stays *)
-Theorem typed_run_keeps_read mc md md' os : forall S p loc s a,
+Theorem typed_run_keeps_read kf mc md md' os : forall S p loc s a,
   fs_addr S p loc = FOk (s, a) -> Forall (writes_elsewhere S (fst a)) os ->
-  read_file md' (typed_run mc md S os) p loc = read_file md' S p loc.
+  read_file md' (typed_run kf mc md S os) p loc = read_file md' S p loc.
 Proof.
   induction os as [|o r IH]; intros S p loc s a A F; cbn [typed_run]; [reflexivity|].
   inversion F as [|? ? Ho Hr]; subst.
-  destruct (typed_step_lower_untouched mc md S o) as (C & G & _).
-  rewrite (IH (fst (typed_step mc md S o)) p loc s a).
-  - exact (typed_step_keeps_read mc md md' S o p loc s a A Ho).
+  destruct (typed_step_lower_untouched kf mc md S o) as (C & G & _).
+  rewrite (IH (fst (typed_step kf mc md S o)) p loc s a).
+  - exact (typed_step_keeps_read kf mc md md' S o p loc s a A Ho).
   - rewrite (fs_addr_state S _ p loc C G). exact A.
   - eapply Forall_impl; [|exact Hr]. intros o'. apply writes_elsewhere_state; assumption.
 Qed.
 
 (* ... hence every typed reader returns the same value *)
-Theorem typed_run_keeps_typed_reads mc md md' os S p loc s a :
+Theorem typed_run_keeps_typed_reads kf mc md md' os S p loc s a :
   fs_addr S p loc = FOk (s, a) -> Forall (writes_elsewhere S (fst a)) os ->
-  let S' := typed_run mc md S os in
+  let S' := typed_run kf mc md S os in
   read_file md' S' p loc = read_file md' S p loc /\
   read_archive md' S' p loc = read_archive md' S p loc /\
   read_text_archive md' S' p loc = read_text_archive md' S p loc /\
@@ -726,8 +726,8 @@ Theorem typed_run_keeps_typed_reads mc md md' os S p loc s a :
   read_fe9_arc md' S' p loc = read_fe9_arc md' S p loc /\
   (forall k, read_textures md' k S' p loc = read_textures md' k S p loc).
 Proof.
-  intros A F S'. pose proof (typed_run_keeps_read mc md md' os S p loc s a A F) as R. fold S' in R.
-  destruct (typed_run_lower_untouched mc md os S) as (C & _). fold S' in C.
+  intros A F S'. pose proof (typed_run_keeps_read kf mc md md' os S p loc s a A F) as R. fold S' in R.
+  destruct (typed_run_lower_untouched kf mc md os S) as (C & _). fold S' in C.
   split; [exact R|].
   unfold read_archive, read_text_archive, read_arc, read_fe9_arc, read_textures,
     fs_read_archive, fs_read_text_archive, fs_read_arc, fs_read_fe9_arc, fs_read_textures.
@@ -736,27 +736,27 @@ Qed.
 
 (* read-after-write through a history: write_archive, then ANY calls that do not write to the same location (writes to other
    paths, typed or not, succeeding or failing, and reads), then read_archive: the archive of C01's round trip *)
-Theorem e2e_archive_round_trip_history mc md S p loc a S1 os :
+Theorem e2e_archive_round_trip_history kf mc md S p loc a S1 os :
   wf_archive a -> ser_bound a < 2 ^ 24 -> a_endian a = c_endian (conf S) ->
-  write_archive mc S p a loc = (S1, FOk tt) ->
+  write_archive kf mc S p a loc = (S1, FOk tt) ->
   (forall s pp tr, fs_addr S p loc = FOk (s, (pp, tr)) -> Forall (writes_elsewhere S pp) os) ->
-  exists a', read_archive md (typed_run mc md S1 os) p loc = FOk a' /\ same_archive a a'.
+  exists a', read_archive md (typed_run kf mc md S1 os) p loc = FOk a' /\ same_archive a a'.
 Proof.
   intros WF B He H F.
-  destruct (e2e_archive_round_trip mc md S p loc a S1 WF B He H) as (f & a' & Hs & Hw & _ & Ra & R).
+  destruct (e2e_archive_round_trip kf mc md S p loc a S1 WF B He H) as (f & a' & Hs & Hw & _ & Ra & R).
   destruct (write_ok_top (lz_compress mc) S p f loc S1 Hw) as (s & pp & c & A & _).
-  destruct (write_archive_lower_untouched mc S p a loc S1 (FOk tt) H) as (C & G & _).
+  destruct (write_archive_lower_untouched kf mc S p a loc S1 (FOk tt) H) as (C & G & _).
   assert (A1 : fs_addr S1 p loc = FOk (s, (pp, false))) by (rewrite (fs_addr_state S S1 p loc C G); exact A).
   assert (F1 : Forall (writes_elsewhere S1 pp) os).
   { eapply Forall_impl; [|exact (F s pp false A)]. intros o. apply writes_elsewhere_state; assumption. }
-  destruct (typed_run_keeps_typed_reads mc md md os S1 p loc s (pp, false) A1 F1) as (_ & K & _).
+  destruct (typed_run_keeps_typed_reads kf mc md md os S1 p loc s (pp, false) A1 F1) as (_ & K & _).
   exists a'. rewrite K. split; [exact Ra | exact R].
 Qed.
 
 (* ------------------------------------------------------------------ localisation (the file-system half of C14) for the typed helpers *)
 (* a localized typed call addresses exactly what the unlocalized call on [localize p] addresses (the codec is chosen by the name the
    caller passed: the premise holds for every path dir/name without trailing '/', C14_fs_same_codec) *)
-Theorem typed_localized_consistent mc md S p p' :
+Theorem typed_localized_consistent kf mc md S p p' :
   localize (c_loc (conf S)) (lng S) p = LOk p' ->
   is_compressed (c_comp (conf S)) p = is_compressed (c_comp (conf S)) p' ->
   read_file md S p true = read_file md S p' false /\
@@ -766,20 +766,20 @@ Theorem typed_localized_consistent mc md S p p' :
   read_fe9_arc md S p true = read_fe9_arc md S p' false /\
   (forall k, read_textures md k S p true = read_textures md k S p' false) /\
   (forall b, write_file mc S p b true = write_file mc S p' b false) /\
-  (forall a, write_archive mc S p a true = write_archive mc S p' a false) /\
-  (forall a, write_text_archive mc S p a true = write_text_archive mc S p' a false).
+  (forall a, write_archive kf mc S p a true = write_archive kf mc S p' a false) /\
+  (forall a, write_text_archive kf mc S p a true = write_text_archive kf mc S p' a false).
 Proof.
   intros Hl Hc. destruct (loc_read_write S p p' Hl (lz_compress mc) (lz_decompress md) Hc) as [R W].
   unfold read_file, write_file, read_archive, read_text_archive, read_arc, read_fe9_arc, read_textures, write_archive, write_text_archive,
     fs_read_archive, fs_read_text_archive, fs_read_arc, fs_read_fe9_arc, fs_read_textures, fs_write_archive, fs_write_text_archive.
   rewrite R. repeat split; try exact W.
-  - intros a. destruct (lift_parse (ser_bin mc a)); [apply W | reflexivity | reflexivity].
-  - intros a. destruct (lift_parse (ser_text mc a)); [apply W | reflexivity | reflexivity].
+  - intros a. destruct (lift_parse (ser_bin kf mc a)); [apply W | reflexivity | reflexivity].
+  - intros a. destruct (lift_parse (ser_text kf mc a)); [apply W | reflexivity | reflexivity].
 Qed.
 
 (* a localisation error is returned by every typed reader; a typed writer returns it unless its serializer fails first (the code
    serializes before it localizes); nothing changes *)
-Theorem typed_localisation_error mc md S p e :
+Theorem typed_localisation_error kf mc md S p e :
   localize (c_loc (conf S)) (lng S) p = LErr e ->
   read_file md S p true = FErr (ELocalization e) /\
   read_archive md S p true = FErr (ELocalization e) /\
@@ -788,24 +788,24 @@ Theorem typed_localisation_error mc md S p e :
   read_fe9_arc md S p true = FErr (ELocalization e) /\
   (forall k, read_textures md k S p true = FErr (ELocalization e)) /\
   (forall b, write_file mc S p b true = (S, FErr (ELocalization e))) /\
-  (forall a f, BinFormat.serialize mc a = Ok f -> write_archive mc S p a true = (S, FErr (ELocalization e))) /\
-  (forall a f, TextFormat.serialize mc (ta_fmt a) (ta_endian a) (ta_map a) = Ok f ->
-     write_text_archive mc S p a true = (S, FErr (ELocalization e))) /\
-  (forall a S' r, write_archive mc S p a true = (S', r) -> S' = S) /\
-  (forall a S' r, write_text_archive mc S p a true = (S', r) -> S' = S).
+  (forall a f, BinFormat.serialize_k kf mc a = Ok f -> write_archive kf mc S p a true = (S, FErr (ELocalization e))) /\
+  (forall a f, TextFormat.serialize kf mc (ta_fmt a) (ta_endian a) (ta_map a) = Ok f ->
+     write_text_archive kf mc S p a true = (S, FErr (ELocalization e))) /\
+  (forall a S' r, write_archive kf mc S p a true = (S', r) -> S' = S) /\
+  (forall a S' r, write_text_archive kf mc S p a true = (S', r) -> S' = S).
 Proof.
   intros Hl.
   assert (A : fs_addr S p true = FErr (ELocalization e)) by (unfold fs_addr, fs_actual; rewrite Hl; reflexivity).
   assert (R : read_file md S p true = FErr (ELocalization e)) by (unfold read_file, fs_read; rewrite A; reflexivity).
   assert (W : forall b, write_file mc S p b true = (S, FErr (ELocalization e))) by (intros b; unfold write_file, fs_write; rewrite A; reflexivity).
-  destruct (typed_helpers_unfold mc md S p true) as (U1 & U2 & U3 & U4 & _ & _ & _ & _ & UW & UT).
+  destruct (typed_helpers_unfold kf mc md S p true) as (U1 & U2 & U3 & U4 & _ & _ & _ & _ & UW & UT).
   split; [exact R|]. rewrite U1, U2, U3, U4, R. cbn [fbind].
   repeat split; try exact W.
   - intros k. unfold read_textures, fs_read_textures. unfold read_file in R. rewrite R. reflexivity.
   - intros a f Hs. rewrite UW, Hs. apply W.
   - intros a f Hs. rewrite UT, Hs. apply W.
-  - intros a S' r. rewrite UW. destruct (BinFormat.serialize mc a); [rewrite W|idtac|idtac]; intros H; injection H as <- _; reflexivity.
-  - intros a S' r. rewrite UT. destruct (TextFormat.serialize mc _ _ _); [rewrite W|idtac|idtac]; intros H; injection H as <- _; reflexivity.
+  - intros a S' r. rewrite UW. destruct (BinFormat.serialize_k kf mc a); [rewrite W|idtac|idtac]; intros H; injection H as <- _; reflexivity.
+  - intros a S' r. rewrite UT. destruct (TextFormat.serialize kf mc _ _ _); [rewrite W|idtac|idtac]; intros H; injection H as <- _; reflexivity.
 Qed.
 
 (* ------------------------------------------------------------------ non-vacuity *)
@@ -818,7 +818,7 @@ Example e2e_example_archive_hyp :
   game_endian_is FE10 (a_endian ex_archive).
 Proof. split; [reflexivity|]. split; [exact (proj1 ex_archive_wf)|]. split; reflexivity. Qed.
 Example e2e_example_archive :
-  let '(S', r) := write_archive Checked ex_fe10 ex_cmp ex_archive false in
+  let '(S', r) := write_archive key_bytes Checked ex_fe10 ex_cmp ex_archive false in
   r = FOk tt /\
   l_get (last (layers S') []) [ex_cmp] =
     Some (File [16; 87; 0; 0; 10; 0; 0; 0; 87; 0; 3; 18; 0; 7; 3; 181; 0; 11; 2; 0; 15; 208; 2; 52; 0; 35; 14; 16; 27; 10; 13; 14; 99; 115;
@@ -834,7 +834,7 @@ Definition ex_archive_le : archive :=
   {| a_data := a_data ex_archive; a_text := a_text ex_archive; a_ptrs := a_ptrs ex_archive; a_labels := a_labels ex_archive;
      a_cstrs := a_cstrs ex_archive; a_endian := LE |}.
 Example e2e_archive_wrong_endian :
-  let '(S', r) := write_archive Checked ex_fe10 ex_cmp ex_archive_le false in
+  let '(S', r) := write_archive key_bytes Checked ex_fe10 ex_cmp ex_archive_le false in
   r = FOk tt /\ read_archive Checked S' ex_cmp false = FErr (EParse ETooSmall).
 Proof. vm_compute. split; reflexivity. Qed.
 
@@ -867,7 +867,7 @@ Proof.
   - split; reflexivity.
 Qed.
 Example e2e_example_text :
-  let '(S', r) := write_text_archive Checked ex_fe14 ex_lz ex_text true in
+  let '(S', r) := write_text_archive key_bytes Checked ex_fe14 ex_lz ex_text true in
   r = FOk tt /\ nth_error (layers S') 0 = Some [] /\
   (exists c, l_get (last (layers S') []) [[109]; [64; 70]; [116; 46; 98; 105; 110; 46; 108; 122]] = Some (File (0x13 :: c))) /\
   read_text_archive Wrapping S' ex_lz true =
@@ -946,13 +946,13 @@ Proof.
   repeat constructor; cbn [writes_elsewhere]; intros s' qq tr' A'; vm_compute in A'; injection A' as _ <- _; discriminate.
 Qed.
 Example e2e_example_history :
-  let '(S1, r) := write_archive Checked ex_fe10 ex_cmp ex_archive false in
+  let '(S1, r) := write_archive key_bytes Checked ex_fe10 ex_cmp ex_archive false in
   r = FOk tt /\
-  exists a', read_archive Wrapping (typed_run Checked Wrapping S1 ex_history) ex_cmp false = FOk a' /\ same_archive ex_archive a'.
+  exists a', read_archive Wrapping (typed_run key_bytes Checked Wrapping S1 ex_history) ex_cmp false = FOk a' /\ same_archive ex_archive a'.
 Proof.
-  destruct (write_archive Checked ex_fe10 ex_cmp ex_archive false) as [S1 r] eqn:E.
+  destruct (write_archive key_bytes Checked ex_fe10 ex_cmp ex_archive false) as [S1 r] eqn:E.
   assert (Hr : r = FOk tt) by (apply (f_equal snd) in E; vm_compute in E; symmetry; exact E).
   subst r. split; [reflexivity|].
   destruct e2e_example_archive_hyp as (_ & WF & B & He).
-  exact (e2e_archive_round_trip_history Checked Wrapping ex_fe10 ex_cmp false ex_archive S1 ex_history WF B He E e2e_example_history_hyp).
+  exact (e2e_archive_round_trip_history key_bytes Checked Wrapping ex_fe10 ex_cmp false ex_archive S1 ex_history WF B He E e2e_example_history_hyp).
 Qed.
